@@ -66,6 +66,23 @@ struct Pair {
     x: NC,
     y: NC,
 }
+/// No Drop, no Destruct, no PanicDestruct: must be consumed, and nothing may panic while it lives.
+struct NP {
+    a: felt252,
+}
+fn mk_np(v: felt252) -> NP nopanic {
+    NP { a: v }
+}
+fn eat_np(x: NP) -> felt252 nopanic {
+    let NP { a } = x;
+    a
+}
+fn bump(x: felt252) -> felt252 nopanic {
+    x
+}
+fn check(x: felt252) {
+    assert(x != 77, 'seventy-seven');
+}
 fn mk_nc(v: felt252) -> NC {
     NC { a: v, b: array![v, 1] }
 }
@@ -116,6 +133,8 @@ struct G<'a> {
     inj: Vec<Injection>,
     features: Vec<&'static str>,
     budget: usize,
+    /// > 0 inside a match arm that ends with a panic.
+    panic_arm: usize,
 }
 
 fn mk(ty: OT) -> &'static str {
@@ -183,7 +202,9 @@ impl G<'_> {
                     self.inj.push(Injection { kind, at, text: Some(format!("{ind}{text}")) });
                 }
                 St::Live => {
-                    if v.loop_depth < self.loop_depth {
+                    // (Not inside an arm that ends with a panic: the flow never reaches the
+                    // next iteration from there, so the move is legal.)
+                    if v.loop_depth < self.loop_depth && self.panic_arm == 0 {
                         self.inj.push(Injection {
                             kind: "use-after-move:moved-inside-loop",
                             at,
@@ -195,7 +216,13 @@ impl G<'_> {
         }
         // A value created and never consumed.
         if self.ch.chance(1, 3) {
-            self.inj.push(Injection { kind: "not-dropped:never-consumed-local", at, text: Some(format!("{ind}let _leak = mk_nd(5);")) });
+            if self.panic_arm == 0 {
+                self.inj.push(Injection { kind: "not-dropped:never-consumed-local", at, text: Some(format!("{ind}let _leak = mk_nd(5);")) });
+            } else {
+                // In a region that ends with a panic a PanicDestruct value may be abandoned; one
+                // without PanicDestruct may not.
+                self.inj.push(Injection { kind: "not-dropped:undestructible-value-reaches-panic", at, text: Some(format!("{ind}let _leak = mk_np(5);")) });
+            }
         }
     }
 
@@ -249,7 +276,7 @@ impl G<'_> {
         if v.ty == OT::ND {
             // Removing the consumption of a non-droppable value leaves it undropped. (Only the
             // plain call form is removable without breaking names.)
-            if self.lines[at].contains("eat_nd(") {
+            if self.lines[at].contains("eat_nd(") && self.panic_arm == 0 {
                 self.inj.push(Injection { kind: "not-dropped:consumption-removed", at, text: None });
             }
         }
@@ -269,7 +296,8 @@ impl G<'_> {
             .filter(|i| self.vars[*i].ty == OT::Pair && self.vars[*i].st != St::Dead && self.vars[*i].loop_depth == self.loop_depth)
             .collect();
         let w_partial = if partial.is_empty() { 0 } else { 2 };
-        match self.ch.weighted(&[w_new, w_consume, w_peek, w_if, w_loop, w_partial, 1]) {
+        let w_pm = if self.budget > 0 && self.depth < 3 { 2 } else { 0 };
+        match self.ch.weighted(&[w_new, w_consume, w_peek, w_if, w_loop, w_partial, 1, 2, w_pm]) {
             0 => {
                 let ty = *self.ch.pick(&[OT::NC, OT::NC, OT::ND, OT::Arr, OT::Pair]);
                 let name = self.fresh();
@@ -315,10 +343,12 @@ impl G<'_> {
                 }
                 self.vars.push(Var { name: a, ty: OT::NC, st: St::Live, depth: d, loop_depth: l });
             }
-            _ => {
+            6 => {
                 let k = self.ch.below(50);
                 self.emit(&format!("acc = acc * 3 + {k};"));
             }
+            7 => self.np_section(),
+            _ => self.panic_match(),
         }
     }
 
@@ -348,7 +378,70 @@ impl G<'_> {
         let name = self.vars[i].name.clone();
         self.emit(&format!("acc += eat_nd({name});"));
         self.vars[i].st = St::Dead;
-        self.inj.push(Injection { kind: "not-dropped:consumption-removed", at, text: None });
+        if self.panic_arm == 0 {
+            self.inj.push(Injection { kind: "not-dropped:consumption-removed", at, text: None });
+        }
+    }
+
+    /// A value without Drop / Destruct / PanicDestruct lives over a few non-panicking statements.
+    fn np_section(&mut self) {
+        self.feat("undestructible-value-section");
+        let mut name = self.fresh();
+        let k = self.ch.below(9);
+        self.emit(&format!("let {name} = mk_np({k});"));
+        let kind: &'static str = if self.panic_arm > 0 {
+            "not-dropped:live-across-panicable-call-in-panic-region"
+        } else {
+            "not-dropped:live-across-panicable-call"
+        };
+        let n = self.ch.below(3);
+        for _ in 0..n {
+            let ind = self.ind();
+            self.inj.push(Injection { kind, at: self.lines.len(), text: Some(format!("{ind}check(acc);")) });
+            if self.ch.bool() {
+                // (Arithmetic operators are trait calls that may panic; `bump` is nopanic.)
+                self.emit("acc = bump(acc);");
+            } else {
+                let w = self.fresh();
+                self.emit(&format!("let {w} = {name};"));
+                name = w;
+            }
+        }
+        let ind = self.ind();
+        self.inj.push(Injection { kind, at: self.lines.len(), text: Some(format!("{ind}check(acc);")) });
+        let at = self.lines.len();
+        self.emit(&format!("acc += eat_np({name});"));
+        self.inj.push(Injection { kind: "not-dropped:undestructible-consumption-removed", at, text: None });
+    }
+
+    /// `match p0 { 0 => { ..; panic }, _ => { .. } }`: the first arm ends with a panic.
+    fn panic_match(&mut self) {
+        self.budget -= 1;
+        self.feat("arm-ending-with-panic");
+        self.emit("match p0 {");
+        self.depth += 1;
+        self.emit("0 => {");
+        self.depth += 1;
+        let before = self.vars.clone();
+        self.panic_arm += 1;
+        let n = 1 + self.ch.below(3);
+        self.block(n, &[]);
+        if self.ch.bool() {
+            self.np_section();
+        }
+        self.panic_arm -= 1;
+        self.emit("core::panic_with_felt252('boom')");
+        self.depth -= 1;
+        self.emit("},");
+        self.vars = before;
+        self.emit("_ => {");
+        self.depth += 1;
+        let n = self.ch.below(3);
+        self.block(n, &[]);
+        self.depth -= 1;
+        self.emit("},");
+        self.depth -= 1;
+        self.emit("}");
     }
 
     fn if_stmt(&mut self) {
@@ -414,7 +507,7 @@ impl G<'_> {
 }
 
 pub fn generate(ch: &mut Choices) -> OwnProgram {
-    let mut g = G { ch, lines: vec![], vars: vec![], n: 0, depth: 0, loop_depth: 0, inj: vec![], features: vec![], budget: 4 };
+    let mut g = G { ch, lines: vec![], vars: vec![], n: 0, depth: 0, loop_depth: 0, inj: vec![], features: vec![], budget: 4, panic_arm: 0 };
     for l in PRELUDE.lines() {
         g.lines.push(l.to_string());
     }
